@@ -372,6 +372,8 @@ func genRPC(c *Chooser, o ScenOpts) *RPCPlan {
 	}
 	rp.TrailerStyle = Pick(c, "announce", "prefix")
 	rp.StrayHTTPTrailer = len(rp.Trailers) > 0 && c.Prob(0.15)
+	rp.CompressErrBody = c.Prob(0.3)
+	rp.EarlyTrailers = c.Prob(0.25)
 	if rp.TrailerStyle == "announce" && c.Prob(0.4) {
 		rp.AnnounceCase = Pick(c, "lower", "upper", "given", "lines")
 	}
